@@ -391,6 +391,7 @@ inductive StepK where
   | range (a b : Nat) | count | distinct | aggcount | aggterm | agghist (i : Nat) | agg2
   | aggpct   -- percentile aggregation on x, one percent: one result row whatever the values are
   | aggnone  -- an aggregation without a type: refused by the compiler (its channel would have no reader)
+  | loopOut  -- mark(a).out().jump(a, no condition, emit): every out-neighbour re-enters the loop
   deriving Repr, DecidableEq
 
 def stepOut (fam : Fam) (n : Nat) (x : Item) : List Item :=
@@ -412,6 +413,15 @@ def histStalls (fam : Fam) (i : Nat) : Bool := fam == .huge && i < 2
 
 /-- dedupe items (distinct on _gid) -/
 def dedup (xs : List Item) : List Item := xs.eraseDups
+
+/-- `mark(a).out().jump(a, emit)`: the rows of every pass are emitted and make the next pass, until
+    a pass yields nothing (`fuel` passes at most: the graph families without cycles — star, mixed,
+    iso, huge — need two). -/
+def loopRows (fam : Fam) (n : Nat) (xs : List Item) : Nat → List Item
+  | 0 => []
+  | fuel + 1 =>
+    let ys := xs.flatMap (stepOut fam n)
+    if ys.isEmpty then [] else ys ++ loopRows fam n ys fuel
 
 /-- Functional semantics of one step on the list of travelers (only what the row count needs).
     A row that is not a graph element (count, aggregation results) is represented by `vtx 0`. -/
@@ -441,6 +451,7 @@ def applyStep (fam : Fam) (n : Nat) (xs : List Item) : StepK → List Item
   | .agg2 => vtx 0 :: (List.range (termCount xs)).map vtx
   | .aggpct => [vtx 0]
   | .aggnone => []
+  | .loopOut => loopRows fam n xs 3
 
 inductive Outcome where
   | done (rows : Nat) | timeout | err | skip
@@ -484,6 +495,7 @@ def bothHangs (fam : Fam) (n : Nat) (xs : List Item) (toEdge : Bool) (edgeItems 
 def typeAfter (cur : Bool) : StepK → Bool
   | .V => false | .E => true | .out => false | .in_ => false | .both => false
   | .outE => true | .inE => true | .bothE => true
+  | .loopOut => false
   | _ => cur
 
 /-- MODEL outcome of running `steps` with the engine as deployed (GripGen.BuffersC07 says whether
@@ -500,6 +512,9 @@ def runModel (concurrentBoth histGuard : Bool) (fam : Fam) (n : Nat) (steps : Li
         else if i != 0 && histStalls fam i && !histGuard then .timeout
         else go rest (applyStep fam n xs s) (typeAfter cur s)
       | .aggnone => .err   -- compile error, whatever the volume
+      | .loopOut =>
+        -- on a ring the unconditional loop never ends by its own definition: not generated
+        if fam == .ring then .skip else go rest (applyStep fam n xs s) (typeAfter cur s)
       | .both => if !concurrentBoth && bothHangs fam n xs false cur then .timeout
                  else go rest (applyStep fam n xs s) (typeAfter cur s)
       | .bothE => if !concurrentBoth && bothHangs fam n xs true cur then .timeout
@@ -526,7 +541,7 @@ def pathSlack (steps : List StepK) : Option Nat :=
           match Gen.lookupOf proc with
           | some (q, be) => some (q + 1 + (Gen.backendOf be).foldl (· + ·) 0 + (Gen.backendOf be).length)
           | none => none
-        | .both | .bothE | .count | .aggcount | .aggterm | .agghist _ | .agg2 | .aggpct | .aggnone => none
+        | .both | .bothE | .count | .aggcount | .aggterm | .agghist _ | .agg2 | .aggpct | .aggnone | .loopOut => none
         | _ => some 1
       match stage with
       | none => none
